@@ -180,6 +180,22 @@ class Case(object):
                 self._enc[key] = ('exc', e)
         return self._enc[key]
 
+    def encode_real_base(self, base):
+        """BER encoding of a top-level base-2 REAL value with the documented binEncBase knob set on the value"""
+        key = ('realbase', base)
+        if key not in self._enc:
+            try:
+                obj = B.build(self.T, self.v, self.spec)
+                obj.binEncBase = base
+                self._enc[key] = ('ok', ber_enc.encode(obj))
+            except Exception as e:
+                self._enc[key] = ('exc', e)
+        return self._enc[key]
+
+    def is_binary_real(self):
+        return M.base_of(self.T)[0] == 'REAL' and isinstance(self.v, tuple) and self.v[1] == 2 and self.v[0] != 0 \
+            and len(M.tag_stack(self.T)) <= 2
+
     def kf(self, codec, data, defMode=True, chunk=0):
         """features naming the recorded encoder defects that exactly explain `data` (emu.classify)"""
         from mc.model import emu
@@ -233,6 +249,35 @@ def model_reads(T, data, v):
     if not M.values_equal(T, got, v):
         return False, 'reference reader yields %r' % (got,)
     return True, None
+
+
+REAL_MANTISSAS = (1, 3, 5, 6, 7, 12, 127, 128, 255, 256, 1000, 65535, 65537, 2 ** 53 + 1, 2 ** 60 + 1, 2 ** 64 + 2 ** 63 + 1)
+
+
+def real_base_sweep(tier):
+    """BER REAL under the documented encoding-base knob: every (mantissa, exponent) of a small grid x
+    base in {2, 8, 16 on the value; None = automatic, set on the encoder} -> (m, e, base, ('ok', bytes) | ('exc', e))"""
+    from pyasn1.type import univ
+    span = 26 if tier == 'quick' else 70
+    for m0 in REAL_MANTISSAS:
+        for sign in (1, -1):
+            m = sign * m0
+            for e in range(-span, span + 1):
+                for base in (2, 8, 16, None):
+                    obj = univ.Real((m, 2, e))
+                    saved = ber_enc.RealEncoder.binEncBase
+                    try:
+                        if base is None:
+                            ber_enc.RealEncoder.binEncBase = None
+                        else:
+                            obj.binEncBase = base
+                        try:
+                            st = ('ok', ber_enc.encode(obj))
+                        except Exception as ex:
+                            st = ('exc', ex)
+                    finally:
+                        ber_enc.RealEncoder.binEncBase = saved
+                    yield m, e, base, st
 
 
 def script_for(c, codec, opts=''):
